@@ -264,6 +264,7 @@ class Zoo:
         self.parked = 0               # processes resumed through SimFuture.resolve()
         self.max_lag_ns = 0
         self._names: list[str] = []
+        self.detail = None            # optional configuration detail a driver wants in the signatures of this run
         self._cur_t = -1
         self._norm_cache: dict = {}
         self._same_t_counts = Counter()
